@@ -28,7 +28,7 @@ class Untranslatable(Exception):
 
 BITS = {"u8": 8, "u16": 16, "u32": 32, "u64": 64, "usize": 64, "u128": 128}
 
-TOKEN = re.compile(r"\s*(?:(0x[0-9a-fA-F_]+(?:_?(?:u8|u16|u32|u64|usize|u128))?|\d[\d_]*(?:_?(?:u8|u16|u32|u64|usize|u128))?)|([A-Za-z_]\w*)|(<<=|>>=|\.\.=|==|!=|<=|>=|&&|\|\||<<|>>|\+=|-=|\*=|/=|%=|\^=|&=|\|=|::|->|=>|\.\.|[-+*/%^&|!<>=(){}\[\];:,.#]))")
+TOKEN = re.compile(r"\s*(?:(0x[0-9a-fA-F_]+(?:_?(?:u8|u16|u32|u64|usize|u128))?|\d[\d_]*(?:_?(?:u8|u16|u32|u64|usize|u128))?)|([A-Za-z_]\w*)|(<<=|>>=|\.\.=|==|!=|<=|>=|&&|\|\||<<|>>|\+=|-=|\*=|/=|%=|\^=|&=|\|=|::|->|=>|\.\.|[-+*/%^&|!<>=(){}\[\];:,.#?]))")
 
 def tokenize(src):
     out, i = [], 0
@@ -192,6 +192,8 @@ class Parser:
                     e = ("call", e, name, args)
                 else:
                     e = ("field", e, name)
+            elif self.peek() == ("op", "?"):
+                self.next(); e = ("try", e)
             elif self.accept("["):
                 if self.accept(".."):
                     hi = None if self.peek()[1] == "]" else self.expr()
@@ -584,11 +586,18 @@ class Gen:
                     if BITS[tgt] < BITS[ta]: raise Untranslatable("narrowing .into()")
                     return k(a, tgt)
                 return self.expr(recv, ki)
-            if recv == ("id", "self") and name in self.self_calls and not args:
-                fn_, keys = self.self_calls[name]
+            if recv == ("id", "self") and name in self.self_calls:
+                spec = self.self_calls[name]
+                fn_, keys = spec[0], spec[1]
+                rty = spec[2] if len(spec) > 2 else "u8"
                 gs = [self.env[k_][0] for k_ in keys]
-                v_ = self.fresh("v")
-                return "match %s %s with None => None | Some ((%s), %s) =>\n  %s end" % (fn_, " ".join(gs), ", ".join(gs), v_, k(v_, "u8"))
+                def gsc(i, acc):
+                    if i == len(args):
+                        v_ = self.fresh("v")
+                        pat = "(%s)" % ", ".join(gs) if len(gs) > 1 else gs[0]
+                        return "match %s %s %s with None => None | Some (%s, %s) =>\n  %s end" % (fn_, " ".join(gs), " ".join(acc), pat, v_, k(v_, rty))
+                    return self.expr(args[i], lambda t, tt: gsc(i + 1, acc + [t]))
+                return gsc(0, [])
             if recv == ("id", "self") and name in self.helpers:
                 params, body = self.helpers[name]
                 if len(params) != len(args): raise Untranslatable("helper arity %s" % name)
@@ -767,6 +776,26 @@ class Gen:
                     raise Untranslatable("assignment changes the type of %s: %s := %s" % (key, t0, tt))
                 return "let %s := %s in\n  %s" % (g, t, self.stmts(rest, final))
             return self.expr(e, k, t0 if t0 in BITS else None)
+        if s[0] == "expr_stmt" and s[1][0] == "try" and s[1][1][0] == "call" and s[1][1][2] in ("read_exact", "write_all") and len(s[1][1][3]) == 1:
+            call = s[1][1]
+            io = self.lhs_key(call[1])
+            if io is None or io not in self.env: raise Untranslatable("i/o object")
+            iog, ioty = self.env[io]
+            if call[2] == "read_exact":
+                if ioty != "reader": raise Untranslatable("read_exact on a non-reader")
+                bkey = self.lhs_key(call[3][0])
+                if bkey is None or bkey not in self.env: raise Untranslatable("read_exact buffer")
+                bg, bty = self.env[bkey]
+                kd = self.fresh("kd"); tb = self.fresh("b")
+                return ("match read_exact (length %s) %s with\n  | Ok (%s, %s) => let %s := %s in\n  %s\n  | Err %s => %s\n  | Panic => None end"
+                        % (bg, iog, tb, iog, bg, tb, self.stmts(rest, final), kd, final(("(inr %s)" % kd, "result"))))
+            if ioty != "writer": raise Untranslatable("write_all on a non-writer")
+            def kw(b, tb_):
+                kd = self.fresh("kd"); r_ = self.fresh("r")
+                ok = self.stmts(rest, final)
+                return ("let '(%s, %s) := io_write_all %s %s in\n  match %s with\n  | Ok _ => %s\n  | Err %s => %s\n  | Panic => None end"
+                        % (iog, r_, b, iog, r_, ok, kd, final(("(inr %s)" % kd, "result"))))
+            return self.expr(call[3][0], kw)
         if s[0] == "expr_stmt" and s[1][0] == "call" and s[1][2] == "randomize_data" and not s[1][3]:
             key = self.lhs_key(s[1][1])
             if key is None or key not in self.env or self.tape is None: raise Untranslatable("randomize_data target")
